@@ -53,7 +53,7 @@ OTHER_TEXT = "model Other%d\n  Real q;\nequation\n  q = %s;\nend Other%d;\n"
 # history generation (plain data: replayable)
 # ---------------------------------------------------------------------------------------------
 def _main_text(rng, use_lib):
-    gm = G.gen_model(rng, size=1)
+    gm = G.gen_model(rng, size=1, want=rng.choice([["alias", "array"], ["alias"], ["array"], []]))
     t = gm["text"]
     if use_lib:
         t = t.replace("model M\n", "model M\n  Lib0 lc0;\n", 1)
@@ -83,32 +83,37 @@ def gen_history(rng, length, stream="main"):
     ops.append(["transfer", mode])
     nextra = 0
     while len(ops) < length:
-        r = rng.random()
-        if r < 0.42:
+        # blocks: (usually) make sure the cache is fresh, apply one or two changes, transfer
+        if ops[-1][0] != "transfer" or rng.random() < 0.25:
             ops.append(["transfer", mode])
-        elif r < 0.57:
-            ops.append(["write", 0, "M.mo", _main_text(rng, use_lib), rng.choice([1, 1, 1, 3, 1000])])
-        elif r < 0.67 and use_lib:
-            ops.append(["write", lib_folder, lib_rel, _lib_text(rng), rng.choice([1, 1, 2])])
-        elif r < 0.75:
-            nextra += 1
-            f = rng.choice([0] + libs + [rng.choice([1, 2])])
-            rel = rng.choice(["Extra%d.mo", "sub/Extra%d.mo", "sub/deep/Extra%d.mo"]) % nextra
-            ops.append(["write", f, rel, OTHER_TEXT % (100 + nextra, G._num(rng), 100 + nextra), 1])
-        elif r < 0.79:
-            ops.append(["touch", rng.choice([0] + libs)])
-        elif r < 0.90:
-            o = dict(opts)
-            k = rng.choice(G.SIMPLIFY_FLAGS + ["check_balanced"])
-            o[k] = not o.get(k, k == "check_balanced")
-            if rng.random() < 0.15:
-                o["expand_mx"] = not o.get("expand_mx", False)
-            opts = o
-            ops.append(["options", dict(opts)])
-        elif r < 0.96:
-            ops.append(["version", "verif-%d" % rng.randint(1, 3)])
-        elif stream == "thorough-codegen":
-            mode = "codegen" if mode == "cache" else "cache"
+        for _ in range(1 if rng.random() < 0.8 else 2):
+            r = rng.random()
+            if r < 0.24:
+                ops.append(["write", 0, "M.mo", _main_text(rng, use_lib), rng.choice([1, 1, 1, 3, 1000])])
+            elif r < 0.40 and use_lib:
+                ops.append(["write", lib_folder, lib_rel, _lib_text(rng), rng.choice([1, 1, 2])])
+            elif r < 0.50:
+                nextra += 1
+                f = rng.choice([0] + libs + [rng.choice([1, 2])])
+                rel = rng.choice(["Extra%d.mo", "sub/Extra%d.mo", "sub/deep/Extra%d.mo"]) % nextra
+                ops.append(["write", f, rel, OTHER_TEXT % (100 + nextra, G._num(rng), 100 + nextra), 1])
+            elif r < 0.55:
+                ops.append(["touch", rng.choice([0] + libs)])
+            elif r < 0.85:
+                o = dict(opts)
+                # mostly the flags that change what these models compile to
+                k = rng.choice(["detect_aliases", "expand_vectors", "detect_aliases", "expand_vectors", "replace_constant_values",
+                                "replace_parameter_expressions"] + G.SIMPLIFY_FLAGS + ["check_balanced"])
+                o[k] = not o.get(k, k == "check_balanced")
+                if rng.random() < 0.1:
+                    o["expand_mx"] = not o.get("expand_mx", False)
+                opts = o
+                ops.append(["options", dict(opts)])
+            elif r < 0.97:
+                ops.append(["version", "verif-%d" % rng.randint(1, 3)])
+            elif stream == "thorough-codegen":
+                mode = "codegen" if mode == "cache" else "cache"
+        ops.append(["transfer", mode])
     ops.append(["transfer", mode])
     return {"stream": stream, "libs": libs, "step_ns": rng.choice([10**3, 10**6, 10**6, 10**9]), "ops": ops}
 
@@ -223,8 +228,8 @@ def run_history(ctx, hist, drv, hid):
                 if ms["kind"] != kind and not kind.startswith("raised"):
                     ctx.disagreement("cache.decision", case, ms["kind"], kind)
                     return
-                if bool(ms["stale"]) != stale:
-                    ctx.disagreement("cache.stale", case, ms["stale"], stale)
+                if bool(ms.get("stale", False)) != stale:
+                    ctx.disagreement("cache.stale", case, ms.get("stale", False), stale)
                     return
     finally:
         w.close()
